@@ -60,10 +60,10 @@ REJECT_RULE = {
     "name_empty_well": "valueerror_for_name_of_empty_well",
     "name_unknown_well": "valueerror_for_name_of_unknown_well",
     "percolumn_wrong_length": "valueerror_for_percolumn_list_of_wrong_length",
-    "limit_none": "valueerror_for_invalid_limits",
-    "limit_nan": "valueerror_for_invalid_limits",
-    "min_negative": "valueerror_for_invalid_limits",
-    "max_not_above_min": "valueerror_for_invalid_limits",
+    "limit_none": "invalid_limits_not_accepted",
+    "limit_nan": "invalid_limits_not_accepted",
+    "min_negative": "invalid_limits_not_accepted",
+    "max_not_above_min": "invalid_limits_not_accepted",
     "flat_wrong_length": "flat_list_of_wrong_length_not_accepted",
 }
 ACCEPT_RULES = (
@@ -728,7 +728,9 @@ def run_case(ctx, case):
         key = _key(cls, faults, exc)
         if exc is not None:
             ctx.feature("refusal_exception:" + base, type(exc).__name__)
-        if base == "flat_wrong_length":
+        if base in ("flat_wrong_length", "limit_none", "limit_nan", "min_negative", "max_not_above_min"):
+            # these must not be accepted (an accepted labware has 0 <= min_volume < max_volume), but the
+            # statement's list of ValueError cases does not name them: any exception counts
             ok = exc is not None
         else:
             ok = isinstance(exc, ValueError)
